@@ -81,6 +81,40 @@ Definition rback_ok (after : chain) (r : rback) : bool :=
   option_eqb kvs_eqb (rb_own r) (Some d) && kvs_eqb (rb_dump r) d && kvs_eqb (rb_sto r) d && kvs_eqb (rb_sto_mut r) d
   && forallb (kread_ok d) (rb_keys r).
 
+(* ---------- clause 11 / 12: a contract whose code ran EXACTLY ONCE in a successful call ---------- *)
+(* its window afterwards = its window before with exactly that body's writes and removes applied in order:
+   nothing anybody else in the tree did (sub-messages at other contracts, instantiations, the wasm module
+   itself) touched it, and nothing it wrote was lost *)
+Definition apply_acts (acts : list action) (own : omapb) : omapb :=
+  fold_left (fun o a => match a with AWrite k v => insert bcmp k v o | ARemove k => delete bcmp k o | AQ _ => o end) acts own.
+
+(* 11: the root program (first message's execute / sudo): it is committed iff the call succeeded *)
+Definition root_writes_ok (before after : chain) (op : topop) (tr : trace) (ok : bool) : bool :=
+  match root_call op, tr with
+  | Some (c, Prog node acts _), RCall n _ c' _ _ _ _ _ :: tr' =>
+      negb (ok && (n =? node) && teqb c c' && negb (memt c (ran tr')))
+      || kvs_eqb (cstore_get after c) (apply_acts acts (cstore_get before c))
+  | _, _ => true
+  end.
+
+(* 12: any depth.  If the call succeeded and no reply was delivered with an error, no sub-message failed, so
+   every body in the log is committed.  The program of a log entry is found by its node number (unique in the
+   harness's scenarios): not part of C08_model_ok *)
+Definition has_err_reply (tr : trace) : bool :=
+  existsb (fun en => match en with RCall _ EReply _ _ _ _ _ (Some (_, _, RRErr)) => true | _ => false end) tr.
+Definition ran_once (a : text) (tr : trace) : bool := Nat.eqb (length (filter (teqb a) (ran tr))) 1.
+Definition single_calls_ok (before after : chain) (op : topop) (tr : trace) : bool :=
+  forallb (fun en => match en with
+                     | RCall n _ a _ _ _ _ _ =>
+                         negb (ran_once a tr) ||
+                         match find_info n (flat_op op) with
+                         | Some pi => match pi_prog pi with
+                                      | Prog _ acts _ => kvs_eqb (cstore_get after a) (apply_acts acts (cstore_get before a)) end
+                         | None => true
+                         end
+                     | _ => true
+                     end) tr.
+
 (* ---------- the oracle ---------- *)
 Definition p_c08 (x : istep) : option N :=
   let st := i_step x in
@@ -103,8 +137,24 @@ Definition p_c08 (x : istep) : option N :=
     (9, forallb (fun a => existsb (fun r => teqb (rb_addr r) a) (i_rb x)) (map fst (reg after))
         && forallb (rback_ok after) (i_rb x));
     (* 10: what the root body read is its own window + its own writes *)
-    (10, root_reads_ok before op (st_trace st))
+    (10, root_reads_ok before op (st_trace st));
+    (* 11: the root contract, if its code ran exactly once: window after = window before + its own writes *)
+    (11, root_writes_ok before after op (st_trace st) (match st_outcome st with Ok _ => true | _ => false end))
   ].
+
+(* clause 12 (outside C08_model_ok, see above) *)
+Definition p_c08x (x : istep) : option N :=
+  let st := i_step x in
+  first_fail [
+    (12, match st_outcome st with
+         | Ok _ => has_err_reply (st_trace st) || single_calls_ok (i_before x) (st_state st) (st_op st) (st_trace st)
+         | _ => true end)
+  ].
+Fixpoint oracle_isteps_x (steps : list istep) (k : N) : option N :=
+  match steps with
+  | [] => None
+  | x :: r => match p_c08x x with Some c => Some (k * 16 + c) | None => oracle_isteps_x r (k + 1) end
+  end.
 
 Fixpoint oracle_isteps (steps : list istep) (k : N) : option N :=
   match steps with
@@ -115,7 +165,10 @@ Fixpoint oracle_isteps (steps : list istep) (k : N) : option N :=
 Definition c08 (ce : case_env) (steps : list istep) : verdict :=
   match oracle_isteps steps 0 with
   | Some c => PropFail c
-  | None => cexec ce (map i_step steps)
+  | None => match oracle_isteps_x steps 0 with
+            | Some c => PropFail c
+            | None => cexec ce (map i_step steps)
+            end
   end.
 
 (* ---------- the oracle accepts the model's own output, for ALL inputs ---------- *)
@@ -273,6 +326,106 @@ Proof.
     + cbn in R. discriminate.
 Qed.
 
+(* ---------- clause 11 on the model ---------- *)
+Lemma prog_root_writes e entry c sender funds rep cid rok node acts out s r s' en tr' :
+  sorted_cstore s ->
+  run_prog e entry c sender funds rep cid rok (Prog node acts out) s = (en :: tr', Ok (r, s')) ->
+  ~ In c (ran tr') -> sorted_cstore s' /\ cstore_get s' c = apply_acts acts (cstore_get s c).
+Proof.
+  intros Hs. cbn [run_prog]. destruct (lookup c (reg s)) as [cd|]; [|discriminate].
+  destruct (find_code (cd_code cd) (codes e)) as [co|]; [|discriminate].
+  destruct (negb (ep_available co entry)); [discriminate|].
+  pose proof (run_actions_own_only e s node acts (cstore_get s c)) as Ho.
+  destruct (run_actions e s node (cstore_get s c) acts) as [tr_a own']. cbn [snd] in Ho.
+  destruct out as [|attrs events data sbs]; [discriminate|].
+  destruct (verify_response attrs events); [discriminate|].
+  pose proof (proj1 (proj2 (proj2 (proj2 (exec_frame e)))) sbs c data (cstore_set s c own')) as F.
+  destruct (process_subs e c sbs data (cstore_set s c own')) as [tr_s [[[ev d] s2]| |]]; cbn [outc trc fst snd] in F;
+    intros H; try discriminate.
+  injection H as _ <- _ <-. intros N. specialize (F _ _ eq_refl (cstore_set_sorted s c own' Hs)).
+  destruct F as (Hs2 & Fc & _). split; [exact Hs2|].
+  rewrite Fc.
+  - rewrite cstore_get_set_same by exact Hs. exact Ho.
+  - intros I. apply N. rewrite ran_app. apply in_or_app. right. exact I.
+Qed.
+
+Lemma msg_root_writes e sender c node acts out funds s r s' en tr' :
+  sorted_cstore s ->
+  run_msg e sender (MExec c (Prog node acts out) funds) s = (en :: tr', Ok (r, s')) ->
+  ~ In c (ran tr') -> sorted_cstore s' /\ cstore_get s' c = apply_acts acts (cstore_get s c).
+Proof.
+  intros Hs. rewrite exec_runs_after_funds. destruct (negb (is_valid e c)); [discriminate|].
+  destruct (move_funds s sender c funds) as [s1| |] eqn:M; try discriminate.
+  destruct (move_funds_spec _ _ _ _ _ M) as (_ & Cs & _).
+  assert (G : cstore_get s1 c = cstore_get s c) by (unfold cstore_get; rewrite Cs; reflexivity).
+  assert (Hs1 : sorted_cstore s1) by (unfold sorted_cstore; rewrite Cs; exact Hs).
+  pose proof (prog_root_writes e EExec c (Some sender) funds None 0 true node acts out s1) as P.
+  destruct (run_prog e EExec c (Some sender) funds None 0 true (Prog node acts out) s1) as [tr [[[ev d] s2]| |]];
+    intros H; try discriminate.
+  injection H as -> _ <-. intros N. rewrite <- G. exact (P _ _ _ _ Hs1 eq_refl N).
+Qed.
+
+Lemma msgs_root_writes e sender c node acts out funds ms s rs s' en tr' :
+  sorted_cstore s ->
+  run_msgs e sender (MExec c (Prog node acts out) funds :: ms) s = (en :: tr', Ok (rs, s')) ->
+  ~ In c (ran tr') -> cstore_get s' c = apply_acts acts (cstore_get s c).
+Proof.
+  intros Hs. cbn [run_msgs].
+  pose proof (msg_root_writes e sender c node acts out funds s) as P.
+  destruct (run_msg e sender (MExec c (Prog node acts out) funds) s) as [tr1 [[r1 s1]| |]] eqn:E1; try discriminate.
+  pose proof (exec_ok_trace_nonempty _ _ _ _ _ _ _ _ E1) as Ne. destruct tr1 as [|en1 tm]; [contradiction|].
+  pose proof (run_msgs_frame e sender ms s1) as F.
+  destruct (run_msgs e sender ms s1) as [tr2 [[rss s2]| |]]; cbn [outc trc fst snd] in F; intros H; try discriminate.
+  cbn [app] in H. injection H as -> <- _ <-. intros N.
+  assert (N1 : ~ In c (ran tm)) by (intros I; apply N; rewrite ran_app; apply in_or_app; left; exact I).
+  assert (N2 : ~ In c (ran tr2)) by (intros I; apply N; rewrite ran_app; apply in_or_app; right; exact I).
+  destruct (P _ _ _ _ Hs eq_refl N1) as [Hs1 G1].
+  destruct (F _ _ eq_refl Hs1) as (_ & Fc & _). rewrite (Fc c N2). exact G1.
+Qed.
+
+Lemma top_ok_is_msgs e op s sender : top_sender op = Some sender ->
+  is_ok (top_outcome (run_top e op s)) = true ->
+  exists rs, run_msgs e sender (top_msgs op) s = (top_trace (run_top e op s), Ok (rs, top_state (run_top e op s))).
+Proof.
+  destruct op as [sd ms|sd m|c0 p|to amt|sd m|sd m]; cbn [top_sender top_msgs run_top]; intros H; try discriminate;
+    injection H as ->.
+  - destruct (run_msgs e sender ms s) as [tr [[rs s']| |]]; cbn; intros H; try discriminate. eexists; reflexivity.
+  - destruct (run_msgs e sender [m] s) as [tr [[rs s']| |]]; cbn; intros H; try discriminate. eexists; reflexivity.
+  - destruct (run_msgs e sender [m] s) as [tr [[rs s']| |]]; cbn; try discriminate.
+    destruct (helper_inst_addr (snd (first_resp rs))); cbn; intros H; try discriminate. eexists; reflexivity.
+  - destruct (run_msgs e sender [m] s) as [tr [[rs s']| |]]; cbn; try discriminate.
+    destruct (helper_exec_data (snd (first_resp rs))); cbn; intros H; try discriminate. eexists; reflexivity.
+Qed.
+
+Lemma memt_not_in c l : memt c l = false -> ~ In c l.
+Proof. apply memt_in. Qed.
+
+Lemma root_writes_model e op s : sorted_cstore s ->
+  root_writes_ok s (top_state (run_top e op s)) op (top_trace (run_top e op s)) (is_ok (top_outcome (run_top e op s))) = true.
+Proof.
+  intros Hs. unfold root_writes_ok. destruct (root_call op) as [[c [node acts out]]|] eqn:R; [|reflexivity].
+  destruct (top_trace (run_top e op s)) as [|en tr'] eqn:T; [reflexivity|].
+  destruct en as [n e' c' sd f b t r| | |]; try reflexivity.
+  destruct (is_ok (top_outcome (run_top e op s))) eqn:Ok1; [|reflexivity]. cbn [andb].
+  destruct ((n =? node) && teqb c c'); [|reflexivity]. destruct (memt c (ran tr')) eqn:M; [reflexivity|].
+  cbn [andb negb orb]. apply memt_in in M.
+  match goal with |- kvs_eqb ?a ?b = true => assert (E : a = b); [|rewrite E; apply kvs_eqb_refl] end.
+  destruct (top_sender op) as [sender|] eqn:S.
+  - destruct (top_ok_is_msgs e op s sender S Ok1) as [rs Hr]. rewrite T in Hr.
+    assert (Ms : exists f0 ms, top_msgs op = MExec c (Prog node acts out) f0 :: ms).
+    { unfold root_call in R. destruct op; try discriminate S;
+        (destruct (top_msgs _) as [|m0 ms0]; [discriminate|]; destruct m0; try discriminate;
+         injection R as -> ->; eexists; eexists; reflexivity). }
+    destruct Ms as (f0 & ms & Ms). rewrite Ms in Hr.
+    exact (msgs_root_writes e sender c node acts out f0 ms s rs _ _ tr' Hs Hr M).
+  - destruct op as [sd0 ms|sd0 m|c0 p|to amt|sd0 m|sd0 m]; try discriminate S.
+    + cbn [root_call] in R. injection R as -> ->. cbn [run_top] in T, Ok1 |- *.
+      pose proof (prog_root_writes e ESudo c None [] None 0 true node acts out s) as P.
+      destruct (run_prog e ESudo c None [] None 0 true (Prog node acts out) s) as [tr [[rs s']| |]]; cbn in T, Ok1 |- *;
+        try discriminate. subst tr. destruct rs as [ev d]. exact (proj2 (P _ _ _ _ Hs eq_refl M)).
+    + cbn in R. discriminate.
+Qed.
+
 Lemma first_fail_all_true l : forallb (fun x : N * bool => snd x) l = true -> first_fail l = None.
 Proof.
   unfold first_fail. induction l as [|[c b] l IH]; cbn [forallb filter snd]; [reflexivity|].
@@ -286,7 +439,8 @@ Lemma p_c08_model ce b op keys s : sorted_cstore s -> p_c08 (model_istep ce b op
 Proof.
   intros Hs. unfold model_istep.
   pose proof (top_frame (mk_env ce b) op s) as F. pose proof (root_reads_model (mk_env ce b) op s) as Rd.
-  destruct (run_top (mk_env ce b) op s) as [[tr o] s'] eqn:E. cbn [top_trace top_state fst snd] in F, Rd.
+  pose proof (root_writes_model (mk_env ce b) op s Hs) as Rw.
+  destruct (run_top (mk_env ce b) op s) as [[tr o] s'] eqn:E. cbn [top_trace top_state top_outcome fst snd] in F, Rd, Rw.
   destruct (F Hs) as (Hs' & Fc & Fb & Fg).
   unfold p_c08. apply first_fail_all_true.
   cbn [i_step i_before i_rb st_state st_op st_trace st_other forallb snd].
@@ -302,6 +456,7 @@ Proof.
     rewrite !kvs_eqb_refl. cbn [andb]. apply forallb_forall. intros k Hk. apply in_map_iff in Hk as (k0 & <- & _).
     unfold kread_ok. cbn [kr_key kr_own kr_raw kr_get kr_get_mut option_eqb]. rewrite !obytes_eqb_refl. reflexivity.
   - exact Rd.
+  - cbn [st_outcome]. destruct o; exact Rw.
 Qed.
 
 (* the state the model threads stays canonically sorted *)
@@ -311,6 +466,11 @@ Proof. intros H. exact (proj1 (top_frame e op s H)). Qed.
 Lemma c08_agree_sound ce steps : c08 ce steps = Agree ->
   oracle_isteps steps 0 = None /\ corr ce (map i_step steps) empty_chain 0 = None.
 Proof.
-  unfold c08, cexec. destruct (oracle_isteps steps 0); [discriminate|].
+  unfold c08, cexec. destruct (oracle_isteps steps 0); [discriminate|]. destruct (oracle_isteps_x steps 0); [discriminate|].
   destruct (corr ce (map i_step steps) empty_chain 0); [discriminate|]. auto.
+Qed.
+
+Lemma c08_agree_sound_x ce steps : c08 ce steps = Agree -> oracle_isteps_x steps 0 = None.
+Proof.
+  unfold c08. destruct (oracle_isteps steps 0); [discriminate|]. destruct (oracle_isteps_x steps 0); [discriminate|]. reflexivity.
 Qed.
